@@ -1,9 +1,9 @@
 (** C09 — lemmas about the model of pkg/obialign's LCS / one-difference kernels.
-    Pack.v: packed words; D1.v: D1Or0; Ref.v: reference recursion = LCS; Band.v: banded kernel against the reference, exhaustively on small scopes; BandX.v: reused buffers and symmetry;
+    Pack.v: packed words; D1.v: D1Or0; Ref.v: reference recursion = LCS; Band.v: the LCS clause; BandM.v: two-row program = banded matrix (layer i); BandE.v: banded matrix = reference within the bound (layers ii-iv); BandS.v: symmetry; BandX.v: swap; EgfRef.v: end-gap-free reference = optimal free-end alignment; BandG.v: layers ii-iv for the end-gap-free mode;
     RefSym.v: symmetry of the reference. Here: the IUPAC compatibility table. *)
 From Coq Require Import NArith ZArith List Bool Lia.
 Import ListNotations.
-From OBI.C09 Require Export Model Corr Pack D1 Ref RefSym Band BandX.
+From OBI.C09 Require Export Model Corr Pack D1 Lev Ref RefSym Band BandX BandM BandE BandS EgfRef BandG.
 Open Scope N_scope.
 
 (** IUPAC nucleotide codes as sets of bases (NC-IUB 1984), written independently of the table of the code *)
